@@ -147,6 +147,31 @@ def run(ck):
             viol.append(dict(kind='entry', ant=ant, observed=s_))
         elif a:
             dis.append(dict(ant=ant, why=a))
+    # one straight conductor written as two collinear wires with bit-identical direction, segment length and radius, with
+    # another wire listed *between* the two pieces (and, for comparison, after them): the junction pulse is numbered with the
+    # second piece, far from the pulses of the first
+    s_ = 0.5
+    for axis, between in ((0, True), (2, True), (0, False), (1, True)):
+        e = [0.0, 0.0, 0.0]; e[axis] = 1.0
+        A = dict(nseg=8, p0=[0.0, 0.0, 0.0], p1=[8 * s_ * e[0], 8 * s_ * e[1], 8 * s_ * e[2]], r=0.004)
+        B = dict(nseg=5, p0=list(A['p1']), p1=[13 * s_ * e[0], 13 * s_ * e[1], 13 * s_ * e[2]], r=0.004)
+        o = [1.0, 2.0, 0.0] if axis != 1 else [2.0, 0.0, 1.0]
+        Cw = dict(nseg=4, p0=o, p1=[o[0] + (1.0 if axis == 2 else 0.0), o[1], o[2] + (0.0 if axis == 2 else 2.0)], r=0.004)
+        ant = dict(f=20.0, ground=False, family='collinear-split', lam=antgen.C / 20.0, seg=s_, fresh=True,
+                   wires=[A, Cw, B] if between else [A, B, Cw])
+        try:
+            a, sb, st = evaluate(d, ant)
+        except Exception as e_:
+            dis.append(dict(ant=ant, why='evaluation raised %s: %s' % (type(e_).__name__, e_)))
+            continue
+        progs += st['far']
+        worst = max(worst, st['worst_spec'])
+        ck.case(('collinear-split', axis, between), st['far'] > 0)
+        ck.count('family_collinear-split')
+        if sb:
+            viol.append(dict(kind='entry', ant=ant, observed=sb))
+        elif a:
+            dis.append(dict(ant=ant, why=a))
     # grounded slopers exactly on the diagonals and axes (the non-vertical-grounded flag of the fill), grounded at either end
     import c05
     for ant in c05.diagonal_cases(rng)[:(6 if ck.tier == 'quick' else 12)]:
